@@ -38,7 +38,10 @@ Cmds ==
         <<L_ttl, kk>>, <<L_get, kk>>, <<L_del, kk>>, <<L_keys, L_star>>}
    ELSE {<<L_keys, L_star>>})
   \cup (IF "strdeep" \in Groups THEN {<<L_rename, kk, k2>>, <<L_rename, k2, kk>>, <<L_ttl, k2>>, <<L_get, k2>>, <<L_mset, kk, va, k2, vb>>} ELSE {})   \* (no INCR: it walks through 99 values within the length bound)
-  \cup (IF "list" \in Groups THEN {<<L_rpush, lk, va>>, <<L_expire, lk, B(1)>>, <<L_llen, lk>>, <<L_lrange, lk, B(0), B(-1)>>, <<L_lpush, lk, vb>>, <<L_lpop, lk>>, <<L_ttl, lk>>} ELSE {})
+  \cup (IF "list" \in Groups THEN {<<L_rpush, lk, va>>, <<L_expire, lk, B(1)>>, <<L_llen, lk>>, <<L_lrange, lk, B(0), B(-1)>>, <<L_lpush, lk, vb>>, <<L_lpop, lk>>, <<L_ttl, lk>>,
+                                  \* commands that empty, rotate or rewrite the list in place: the deadline goes with the key and only with it
+                                  <<L_rpop, lk>>, <<L_lmove, lk, lk, L_left, L_right>>, <<L_lmove, lk, lk, L_right, L_right>>, <<L_ltrim, lk, B(1), B(-1)>>,
+                                  <<L_lrem, lk, B(0), va>>, <<L_lset, lk, B(0), vb>>} ELSE {})
   \cup (IF "agg" \in Groups THEN
          {<<L_hset, hk, va, vb>>, <<L_expire, hk, B(1)>>, <<L_hget, hk, va>>, <<L_hlen, hk>>, <<L_hdel, hk, va>>, <<L_hset, hk, vb, va>>,
           <<L_sadd, sk, va>>, <<L_expire, sk, B(1)>>, <<L_scard, sk>>, <<L_smembers, sk>>, <<L_sadd, sk, vb>>, <<L_srem, sk, va>>,
